@@ -79,20 +79,25 @@ def StoreFresh (s : LSt) : Prop := ∀ p j u, s.store p = some (j, u) → u ≤ 
 /-- only a grant to `j` writes a lease of `j` into the store, and it needs a lease call of `j` in flight -/
 theorem store_written_only_by_grant (n : Nat) (s s' : LSt) (l : LLabel) (h : lstep n s l = some s') (p : Nat)
     (hne : s'.store p ≠ s.store p) :
-    ∃ j cl, l = .proc j true ∧ (s.inst j).call = some cl ∧ cl.part = p ∧ s'.store p = some (j, s.now + s.lease) := by
+    ∃ j cl, l = .proc j true ∧ (s.inst j).call = some cl ∧ cl.result = none ∧ cl.part = p ∧
+      s'.store p = some (j, s.now + s.lease) := by
   unfold lstep at h
   cases l <;> simp only [LLabel.inst?, lstepCore] at h <;> (repeat' split at h) <;> (try cases h) <;>
     first
       | exact absurd rfl hne
       | skip
-  rename_i j g _ _ cl hcl _ hg
+  rename_i j g _ _ cl hcl hres hg
   simp only [Bool.and_eq_true] at hg
+  have hres' : cl.result = none := by
+    cases hr : cl.result with
+    | none => rfl
+    | some r => simp [hr] at hres
   have hp : p = cl.part := by
     apply Classical.byContradiction
     intro hx
     exact hne (by simp [updS, hx])
   subst hp
-  refine ⟨j, cl, by rw [hg.1], hcl, rfl, by simp⟩
+  refine ⟨j, cl, by rw [hg.1], hcl, hres', rfl, by simp⟩
 
 theorem step_storeFresh (n : Nat) (s s' : LSt) (l : LLabel) (h : lstep n s l = some s') (hf : StoreFresh s) : StoreFresh s' := by
   intro p j u hs
@@ -102,15 +107,16 @@ theorem step_storeFresh (n : Nat) (s s' : LSt) (l : LLabel) (h : lstep n s l = s
   · rw [hne] at hs
     have := hf p j u hs
     rw [hl]; omega
-  · obtain ⟨j', cl, _, _, _, he⟩ := store_written_only_by_grant n s s' l h p hne
+  · obtain ⟨j', cl, _, _, _, _, he⟩ := store_written_only_by_grant n s s' l h p hne
     rw [he] at hs
     cases hs
     rw [hl]; omega
 
-/-- instance `j` is out of the game: no loop, no call in flight, and it cannot be started (again) -/
+/-- instance `j` is out of the game: no loop, no lease request still on its way to the store, and it cannot be
+started (again) -/
 structure Dead (s : LSt) (j : Nat) : Prop where
   off : (s.inst j).loopOn = false
-  idle : (s.inst j).call = none
+  idle : ∀ cl, (s.inst j).call = some cl → cl.result ≠ none
   used : (s.inst j).phase ≠ .uninit
 
 theorem step_dead (n : Nat) (s s' : LSt) (l : LLabel) (h : lstep n s l = some s') (j : Nat) (hd : Dead s j) : Dead s' j := by
@@ -120,12 +126,19 @@ theorem step_dead (n : Nat) (s s' : LSt) (l : LLabel) (h : lstep n s l = some s'
     have hidle := hd.idle
     have hused := hd.used
     cases l <;> simp only [LLabel.inst?, Option.some.injEq, reduceCtorEq] at hi <;> subst hi <;>
-      simp only [LLabel.inst?, lstepCore, hoff, hidle, Bool.false_and, Bool.false_eq_true, if_false] at h <;>
+      simp only [LLabel.inst?, lstepCore, hoff, Bool.false_and, Bool.false_eq_true, if_false] at h <;>
       (repeat' split at h) <;> (try cases h) <;>
       first
         | exact hd
         | (rename_i hg _; simp only [Bool.and_eq_true, beq_iff_eq] at hg; exact absurd hg.1 hused)
-        | (refine ⟨?_, ?_, ?_⟩ <;> simp only [updI_same] <;> first | exact hoff | exact hidle | exact hused | rfl)
+        | (refine ⟨?_, ?_, ?_⟩ <;> simp only [updI_same, afterGrant] <;>
+            first
+              | exact hoff
+              | exact hidle
+              | exact hused
+              | rfl
+              | (intro cl hc; cases hc; simp)
+              | (intro cl hc; cases hc))
   · refine ⟨?_, ?_, ?_⟩ <;> rw [step_frame n s s' l h j hi]
     · exact hd.off
     · exact hd.idle
@@ -150,10 +163,10 @@ theorem dead_peer_partitions_free (n : Nat) (j : Nat) : ∀ (ls : List LLabel) (
       intro p u hp
       by_cases hne : s1.store p = s0.store p
       · rw [hne] at hp; exact hb p u hp
-      · obtain ⟨j', cl, _, hcall, _, he⟩ := store_written_only_by_grant n s0 s1 l hs p hne
+      · obtain ⟨j', cl, _, hcall, hres, _, he⟩ := store_written_only_by_grant n s0 s1 l hs p hne
         rw [he] at hp
         cases hp
-        rw [hd.idle] at hcall; cases hcall
+        exact absurd hres (hd.idle cl hcall)
 
 theorem dead_peer_free_after_lease (n : Nat) (j : Nat) (ls : List LLabel) (s0 s : LSt) (hr : lrun n s0 ls = some s)
     (hd : Dead s0 j) (hf : StoreFresh s0) (hlate : s0.now + s0.lease ≤ s.now) (p u : Nat) (hp : s.store p = some (j, u)) :
@@ -165,11 +178,11 @@ theorem dead_peer_free_after_lease (n : Nat) (j : Nat) (ls : List LLabel) (s0 s 
 /-! ### one attempt -/
 
 theorem attempt_enabled (n : Nat) (s : LSt) (i p : Nat) (hi : i < n) (hon : (s.inst i).loopOn = true)
-    (ha : (s.inst i).alive = true) (hp : (s.inst i).needProvision = false) (hc : (s.inst i).call = none)
+    (ha : (s.inst i).alive = true) (hc : (s.inst i).call = none)
     (hd : (s.inst i).held.length < (s.inst i).target) (hr : p < (s.inst i).parts) (hh : p ∉ (s.inst i).held) :
     ∃ s', lstep n s (.issue i p) = some s' := by
   unfold lstep
-  simp [LLabel.inst?, hi, lstepCore, hon, ha, hp, hc, hd, hr, hh]
+  simp [LLabel.inst?, hi, lstepCore, hon, ha, hc, hd, hr, hh]
 
 theorem free_partition_is_granted (n : Nat) (s : LSt) (i : Nat) (hi : i < n) (cl : LCall)
     (hc : (s.inst i).call = some cl) (hu : cl.result = none) (hf : storeFree s cl.part = true) :
